@@ -151,3 +151,116 @@ theorem filter_inRange (c : RCfg) (hr : NoRange c) (rs : List Rec) : rs.filter (
   simp [inRange_of_noRange c hr]
 
 end Uft.Fstack
+
+namespace Uft.Fstack
+open Uft.Mcount (Rec Trigger Call Calls evCall evCalls)
+
+/-! ### --no-libcall after the repair of F-C07-NOLIBCALL: script against report/graph/dump -/
+
+/-- the two readers agree on everything the filters look at (they may differ in display depth) -/
+structure FEq (a b : FS) : Prop where
+  inC : a.inCount = b.inCount
+  outC : a.outCount = b.outCount
+  depth : a.depth = b.depth
+  stack : a.stack = b.stack
+  sc : a.sc = b.sc
+  scSet : a.scSet = b.scSet
+  en : a.enabled = b.enabled
+
+def eraseD (rs : List Rec) : List Rec := rs.map (fun r => { r with depth := 0 })
+
+theorem eraseD_append (a b : List Rec) : eraseD (a ++ b) = eraseD a ++ eraseD b := by simp [eraseD]
+
+theorem feq_account (a b : FS) (h : FEq a b) (r : Rec) : FEq (account a r) (account b r) := by
+  unfold account
+  split
+  · exact h
+  · exact ⟨h.inC, h.outC, h.depth, h.stack, by simp only [h.scSet, h.sc], rfl, h.en⟩
+
+theorem feq_verdict (c : RCfg) (a b : FS) (h : FEq a b) (f : Nat) : verdict c a f = verdict c b f := by
+  obtain ⟨h1, h2, h3, h4, h5, h6, h7⟩ := h
+  cases a; cases b
+  simp only at h1 h2 h3 h4 h5 h6 h7
+  subst h1 h2 h3 h4 h5 h6 h7
+  rfl
+
+theorem feq_fsEntry (c : RCfg) (a b : FS) (h : FEq a b) (f : Nat) :
+    FEq (fsEntry c a f).1 (fsEntry c b f).1 ∧ (fsEntry c a f).2 = (fsEntry c b f).2 := by
+  have hv := feq_verdict c a b h f
+  refine ⟨⟨?_, ?_, ?_, ?_, ?_, ?_, ?_⟩, ?_⟩ <;>
+    simp only [fsEntry, hv, h.inC, h.outC, h.depth, h.stack, h.sc, h.scSet, h.en, depthAfter]
+
+theorem feq_fsExit (c : RCfg) (a b : FS) (h : FEq a b) : FEq (fsExit c a) (fsExit c b) := by
+  have ht : topFr c a = topFr c b := by simp only [topFr, h.stack]
+  refine ⟨?_, ?_, ?_, ?_, ?_, ?_, ?_⟩ <;> simp only [fsExit, ht, h.inC, h.outC, h.stack, h.sc, h.scSet, h.en]
+
+theorem feq_updEntry_l (a b : FS) (h : FEq a b) : FEq (updEntry a) b := ⟨h.inC, h.outC, h.depth, h.stack, h.sc, h.scSet, h.en⟩
+theorem feq_updEntry_r (a b : FS) (h : FEq a b) : FEq a (updEntry b) := ⟨h.inC, h.outC, h.depth, h.stack, h.sc, h.scSet, h.en⟩
+theorem feq_updExit_l (a b : FS) (h : FEq a b) : FEq (updExit a) b := ⟨h.inC, h.outC, h.depth, h.stack, h.sc, h.scSet, h.en⟩
+theorem feq_updExit_r (a b : FS) (h : FEq a b) : FEq a (updExit b) := ⟨h.inC, h.outC, h.depth, h.stack, h.sc, h.scSet, h.en⟩
+
+theorem feq_exitStep (c : RCfg) (a b : FS) (h : FEq a b) (r : Rec) (q : Bool) :
+    FEq (exitStep c a r q).1 (exitStep c b r q).1 ∧ eraseD (exitStep c a r q).2 = eraseD (exitStep c b r q).2 := by
+  have ht : topFr c a = topFr c b := by simp only [topFr, h.stack]
+  unfold exitStep
+  rw [ht, h.en]
+  split
+  · exact ⟨feq_fsExit c a b h, rfl⟩
+  · refine ⟨feq_fsExit c _ _ (feq_updExit_l _ _ (feq_updExit_r _ _ h)), ?_⟩
+    cases q <;> simp [eraseD, shown]
+
+theorem feq_exitStep_hidden (c : RCfg) (a b : FS) (h : FEq a b) (r : Rec) :
+    FEq (fsExit c a) (exitStep c b r true).1 ∧ (exitStep c b r true).2 = [] := by
+  unfold exitStep
+  split
+  · exact ⟨feq_fsExit c a b h, rfl⟩
+  · exact ⟨feq_fsExit c _ _ (feq_updExit_r _ _ h), rfl⟩
+
+/-- one record: script (repaired) against the fstack_check_filter loop -/
+theorem feq_step (c : RCfg) (hfix : c.pltFixed = true) (a b : FS) (h : FEq a b) (r : Rec) :
+    FEq (stepC c a r).1 (stepA c b r).1 ∧ eraseD (stepC c a r).2 = eraseD (stepA c b r).2 := by
+  have ha := feq_account a b h r
+  obtain ⟨he, hb⟩ := feq_fsEntry c _ _ ha r.addr
+  unfold stepC stepA
+  simp only [hfix, ↓reduceIte]
+  cases hp : isPlt c r with
+  | true =>
+    simp only [↓reduceIte, stepHidden]
+    by_cases h0 : r.type = 0
+    · simp only [h0, ↓reduceIte]
+      cases hacc : (fsEntry c (account b r) r.addr).2 with
+      | true => exact ⟨feq_updEntry_r _ _ he, rfl⟩
+      | false => exact ⟨he, rfl⟩
+    · simp only [h0, ↓reduceIte]
+      by_cases h1 : r.type = 1
+      · simp only [h1, ↓reduceIte]
+        obtain ⟨x1, x2⟩ := feq_exitStep_hidden c _ _ ha r
+        exact ⟨x1, by rw [x2]⟩
+      · simp only [h1, ↓reduceIte]
+        exact ⟨ha, trivial⟩
+  | false =>
+    simp only [Bool.false_eq_true, ↓reduceIte]
+    by_cases h0 : r.type = 0
+    · simp only [h0, ↓reduceIte, hb]
+      cases hacc : (fsEntry c (account b r) r.addr).2 with
+      | true =>
+        simp only [↓reduceIte]
+        exact ⟨feq_updEntry_l _ _ (feq_updEntry_r _ _ he), by simp [eraseD, shown]⟩
+      | false => exact ⟨he, rfl⟩
+    · simp only [h0, ↓reduceIte]
+      by_cases h1 : r.type = 1
+      · simp only [h1, ↓reduceIte]
+        exact feq_exitStep c _ _ ha r false
+      · simp only [h1, ↓reduceIte]
+        exact ⟨ha, trivial⟩
+
+theorem feq_run (c : RCfg) (hfix : c.pltFixed = true) : ∀ (rs : List Rec) (a b : FS), FEq a b →
+    eraseD (runSteps (stepC c) a rs) = eraseD (runSteps (stepA c) b rs)
+  | [], _, _, _ => rfl
+  | r :: rest, a, b, h => by
+    obtain ⟨h1, h2⟩ := feq_step c hfix a b h r
+    simp only [runSteps, eraseD_append, h2, feq_run c hfix rest _ _ h1]
+
+theorem feq_refl (a : FS) : FEq a a := ⟨rfl, rfl, rfl, rfl, rfl, rfl, rfl⟩
+
+end Uft.Fstack
